@@ -1,8 +1,357 @@
-/- PyodaModel.TimeOfDay — placeholder until the area is modelled. -/
+/-
+  PyodaModel.TimeOfDay — LocalTime, _TimePeriodField and the time part of LocalDateTime.
+  Transcribed from pyoda_time/_local_time.py, fields/_time_period_field.py and the
+  plus_hours … plus_nanoseconds / plus(Period) / minus(Period) members of _local_date_time.py.
+
+  The date of a LocalDateTime is represented by its day number on the shared day line; the only
+  date operations needed here are `plus_days` / `plus_weeks` (`_FixedLengthDatePeriodField.add`),
+  abstracted to a range check against the calendar's `[min_days, max_days]` (a `DayRange`, passed
+  in by the caller).  The error kind follows the code: the "small" path (|days| < 300) raises
+  OverflowError, the day-number constructor raises ValueError.  `plus_years`/`plus_months` belong
+  to the calendar model (C09); `plusPeriod` takes the day number reached after them as an input.
+-/
 import PyodaModel.Prelude
+import PyodaModel.Elapsed
 
-namespace Pyoda.TimeOfDay
+namespace Pyoda
 
-def handle (_toks : List String) : Option String := none
+/-- the seven `_TimePeriodField` instances -/
+inductive TimeUnit where
+  | hours | minutes | seconds | milliseconds | microseconds | ticks | nanoseconds
+  deriving DecidableEq, Repr, Inhabited
 
-end Pyoda.TimeOfDay
+namespace TimeUnit
+/-- `__unit_nanoseconds` -/
+def nanos : TimeUnit → Int
+  | hours => NPH | minutes => NPMin | seconds => NPS | milliseconds => NPMs
+  | microseconds => NPUs | ticks => NPT | nanoseconds => 1
+/-- `__units_per_day = int(NANOSECONDS_PER_DAY / unit_nanoseconds)`; the float quotient is an exact
+    integer below 2^53 for each of the seven units. -/
+def unitsPerDay : TimeUnit → Int
+  | hours => HPD | minutes => MinPD | seconds => SPD | milliseconds => MsPD
+  | microseconds => UsPD | ticks => TPD | nanoseconds => NPD
+end TimeUnit
+
+structure LocalTime where
+  nod : Int
+  deriving DecidableEq, Repr, Inhabited
+
+namespace LocalTime
+
+def TPMs : Int := 10000   -- TICKS_PER_MILLISECOND
+
+/-- the factories first test all ranges at once (`if <some argument out of range>:`) and only then run the
+    individual `_check_argument_range` calls that produce the error -/
+def guarded (c : Prop) [Decidable c] (checks : R Unit) : R Unit := if c then checks else .ok ()
+
+/-- `LocalTime(hour, minute, second, millisecond)` -/
+def new (h m s ms : Int) : R LocalTime := do
+  guarded (h < 0 ∨ h > HPD - 1 ∨ m < 0 ∨ m > 60 - 1 ∨ s < 0 ∨ s > 60 - 1 ∨ ms < 0 ∨ ms > 1000 - 1) do
+    checkRange h 0 (HPD - 1)
+    checkRange m 0 (60 - 1)
+    checkRange s 0 (60 - 1)
+    checkRange ms 0 (1000 - 1)
+  .ok ⟨h * NPH + m * NPMin + s * NPS + ms * NPMs⟩
+
+/-- `from_hour_minute_second_millisecond_tick` -/
+def fromHMSMsT (h m s ms t : Int) : R LocalTime := do
+  guarded (h < 0 ∨ h > HPD - 1 ∨ m < 0 ∨ m > 60 - 1 ∨ s < 0 ∨ s > 60 - 1 ∨ ms < 0 ∨ ms > 1000 - 1
+      ∨ t < 0 ∨ t > TPMs - 1) do
+    checkRange h 0 (HPD - 1)
+    checkRange m 0 (60 - 1)
+    checkRange s 0 (60 - 1)
+    checkRange ms 0 (1000 - 1)
+    checkRange t 0 (TPMs - 1)
+  .ok ⟨h * NPH + m * NPMin + s * NPS + ms * NPMs + t * NPT⟩
+
+/-- `from_hour_minute_second_tick` -/
+def fromHMST (h m s t : Int) : R LocalTime := do
+  guarded (h < 0 ∨ h > HPD - 1 ∨ m < 0 ∨ m > 60 - 1 ∨ s < 0 ∨ s > 60 - 1 ∨ t < 0 ∨ t > TPS - 1) do
+    checkRange h 0 (HPD - 1)
+    checkRange m 0 (60 - 1)
+    checkRange s 0 (60 - 1)
+    checkRange t 0 (TPS - 1)
+  .ok ⟨h * NPH + m * NPMin + s * NPS + t * NPT⟩
+
+/-- `from_hour_minute_second_nanosecond` -/
+def fromHMSN (h m s n : Int) : R LocalTime := do
+  guarded (h < 0 ∨ h > HPD - 1 ∨ m < 0 ∨ m > 60 - 1 ∨ s < 0 ∨ s > 60 - 1 ∨ n < 0 ∨ n > NPS - 1) do
+    checkRange h 0 (HPD - 1)
+    checkRange m 0 (60 - 1)
+    checkRange s 0 (60 - 1)
+    checkRange n 0 (NPS - 1)
+  .ok ⟨h * NPH + m * NPMin + s * NPS + n⟩
+
+/-- `from_nanoseconds_since_midnight` -/
+def fromNanosSinceMidnight (n : Int) : R LocalTime := do
+  guarded (n < 0 ∨ n > NPD - 1) (checkRange n 0 (NPD - 1))
+  .ok ⟨n⟩
+
+/-- `from_<unit>_since_midnight` for hours, minutes, seconds, milliseconds, ticks: range check,
+    then `_int64_overflow(value * nanoseconds_per_unit)` -/
+def fromUnitsSinceMidnight (v perDay nanosPerUnit : Int) : R LocalTime := do
+  guarded (v < 0 ∨ v > perDay - 1) (checkRange v 0 (perDay - 1))
+  .ok ⟨int64Overflow (v * nanosPerUnit)⟩
+
+def fromTicksSinceMidnight (v : Int) : R LocalTime := fromUnitsSinceMidnight v TPD NPT
+def fromMillisecondsSinceMidnight (v : Int) : R LocalTime := fromUnitsSinceMidnight v MsPD NPMs
+def fromSecondsSinceMidnight (v : Int) : R LocalTime := fromUnitsSinceMidnight v SPD NPS
+def fromMinutesSinceMidnight (v : Int) : R LocalTime := fromUnitsSinceMidnight v MinPD NPMin
+def fromHoursSinceMidnight (v : Int) : R LocalTime := fromUnitsSinceMidnight v HPD NPH
+
+/-! accessors, as coded -/
+def hour (t : LocalTime) : R Int := pyTdiv (t.nod >>> 13) 439453125
+def clockHourOfHalfDay (t : LocalTime) : R Int := do
+  let h ← t.hour
+  let x := int32Overflow (csharpMod h 12)
+  .ok (if x = 0 then 12 else x)
+def minute (t : LocalTime) : R Int := do
+  let q ← pyTdiv (t.nod >>> 11) 29296875
+  .ok (csharpMod q 60)
+def second (t : LocalTime) : R Int := do let q ← pyTdiv t.nod NPS; .ok (csharpMod q 60)
+def millisecond (t : LocalTime) : R Int := do let q ← pyTdiv t.nod NPMs; .ok (csharpMod q 1000)
+def microsecond (t : LocalTime) : R Int := do let q ← pyTdiv t.nod NPUs; .ok (csharpMod q 1000000)
+def tickOfDay (t : LocalTime) : R Int := pyTdiv t.nod NPT
+def tickOfSecond (t : LocalTime) : R Int := do
+  let q ← t.tickOfDay
+  .ok (int32Overflow (csharpMod q TPS))
+def nanosecondOfSecond (t : LocalTime) : Int := int32Overflow (csharpMod t.nod NPS)
+def nanosecondOfDay (t : LocalTime) : Int := t.nod
+
+/-! comparison -/
+def beq (a b : LocalTime) : Bool := decide (a.nod = b.nod)
+def lt (a b : LocalTime) : Bool := decide (a.nod < b.nod)
+def le (a b : LocalTime) : Bool := decide (a.nod ≤ b.nod)
+def gt (a b : LocalTime) : Bool := decide (a.nod > b.nod)
+def ge (a b : LocalTime) : Bool := decide (a.nod ≥ b.nod)
+def compareTo (a b : LocalTime) : Int := a.nod - b.nod
+
+end LocalTime
+
+/-! ## _TimePeriodField -/
+
+namespace TimeUnit
+
+/-- `_add_local_time`.  (The negative branch tests `value <= units_per_day`, which always holds
+    there, so the amount is always reduced.) -/
+def addLocalTime (u : TimeUnit) (t : LocalTime) (value : Int) : LocalTime :=
+  if value > 0 then
+    let value := if value > u.unitsPerDay then csharpMod value u.unitsPerDay else value
+    let n := t.nod + value * u.nanos
+    if n ≥ NPD then ⟨n - NPD⟩ else ⟨n⟩
+  else
+    let value := if value ≤ u.unitsPerDay then csharpMod value u.unitsPerDay else value
+    let n := t.nod + value * u.nanos
+    if n < 0 then ⟨n + NPD⟩ else ⟨n⟩
+
+/-- the `(days, value)` split at the head of both branches of `_add_local_time_with_extra_days` -/
+def splitDays (u : TimeUnit) (big : Bool) (value : Int) : R (Int × Int) :=
+  if big then do
+    let q ← pyTdiv value u.unitsPerDay
+    .ok (q, csharpMod value u.unitsPerDay)
+  else .ok (0, value)
+
+/-- `_add_local_time_with_extra_days` -/
+def addLocalTimeWithExtraDays (u : TimeUnit) (t : LocalTime) (value : Int) : R (LocalTime × Int) :=
+  if value = 0 then .ok (t, 0)
+  else if value ≥ 0 then do
+    let dv ← u.splitDays (decide (value ≥ u.unitsPerDay)) value
+    let n := t.nod + dv.2 * u.nanos
+    if n ≥ NPD then .ok (⟨n - NPD⟩, dv.1 + 1) else .ok (⟨n⟩, dv.1)
+  else do
+    let dv ← u.splitDays (decide (value ≤ -u.unitsPerDay)) value
+    let n := t.nod + dv.2 * u.nanos
+    if n < 0 then .ok (⟨n + NPD⟩, dv.1 - 1) else .ok (⟨n⟩, dv.1)
+
+end TimeUnit
+
+/-! ## the date as a day number -/
+
+/-- `[min_days, max_days]` of the calendar of a date -/
+structure DayRange where
+  minD : Int
+  maxD : Int
+  deriving DecidableEq, Repr, Inhabited
+
+/-- `_FixedLengthDatePeriodField(unit_days).add(date, value)` on day numbers: the path below 300
+    days works on year/day-of-year and raises OverflowError when it leaves the calendar's years,
+    the other path builds the date from the day number (ValueError outside the range). -/
+def DayRange.addFixed (r : DayRange) (unitDays day value : Int) : R Int :=
+  if value = 0 then .ok day
+  else
+    let dta := value * unitDays
+    let nd := day + dta
+    if 300 > dta ∧ dta > -300 then
+      if nd < r.minD ∨ nd > r.maxD then .error .overflowError else .ok nd
+    else
+      if nd < r.minD ∨ nd > r.maxD then .error .valueError else .ok nd
+
+def DayRange.plusDays (r : DayRange) (day k : Int) : R Int := r.addFixed 1 day k
+def DayRange.plusWeeks (r : DayRange) (day k : Int) : R Int := r.addFixed 7 day k
+
+structure LocalDateTime where
+  day  : Int
+  time : LocalTime
+  deriving DecidableEq, Repr, Inhabited
+
+/-- the ten components of a `Period`; `dayAfterYM` stands for the effect of the years and months:
+    the day number of `date.plus_years(years).plus_months(months)` -/
+structure TimePeriod where
+  weeks : Int
+  days : Int
+  hours : Int
+  minutes : Int
+  seconds : Int
+  milliseconds : Int
+  ticks : Int
+  nanoseconds : Int
+  deriving DecidableEq, Repr, Inhabited
+
+namespace TimeUnit
+
+/-- `_add_local_date_time` -/
+def addLocalDateTime (u : TimeUnit) (r : DayRange) (start : LocalDateTime) (units : Int) : R LocalDateTime := do
+  let te ← u.addLocalTimeWithExtraDays start.time units
+  let date ← (if te.2 = 0 then .ok start.day else r.plusDays start.day te.2 : R Int)
+  .ok ⟨date, te.1⟩
+
+/-- `_units_between` / `_get_units_in_duration` -/
+def unitsBetween (u : TimeUnit) (s e : LocalDateTime) : R Int := do
+  let a ← Duration.ctor s.day s.time.nod
+  let b ← Duration.ctor e.day e.time.nod
+  let d ← Duration.sub b a
+  pyTdiv d.toNanos u.nanos
+
+end TimeUnit
+
+namespace LocalTime
+/-- `LocalTime + Period` for a period without date components -/
+def plusPeriod (t : LocalTime) (p : TimePeriod) : LocalTime :=
+  let t := TimeUnit.hours.addLocalTime t p.hours
+  let t := TimeUnit.minutes.addLocalTime t p.minutes
+  let t := TimeUnit.seconds.addLocalTime t p.seconds
+  let t := TimeUnit.milliseconds.addLocalTime t p.milliseconds
+  let t := TimeUnit.ticks.addLocalTime t p.ticks
+  TimeUnit.nanoseconds.addLocalTime t p.nanoseconds
+end LocalTime
+
+def TimePeriod.neg (p : TimePeriod) : TimePeriod :=
+  ⟨-p.weeks, -p.days, -p.hours, -p.minutes, -p.seconds, -p.milliseconds, -p.ticks, -p.nanoseconds⟩
+
+namespace LocalDateTime
+
+/-- the six time-unit steps of `plus(Period)`: the time of day and the sum of the extra days -/
+def timeSteps (t : LocalTime) (p : TimePeriod) : R (LocalTime × Int) := do
+  let a ← TimeUnit.hours.addLocalTimeWithExtraDays t p.hours
+  let b ← TimeUnit.minutes.addLocalTimeWithExtraDays a.1 p.minutes
+  let c ← TimeUnit.seconds.addLocalTimeWithExtraDays b.1 p.seconds
+  let d ← TimeUnit.milliseconds.addLocalTimeWithExtraDays c.1 p.milliseconds
+  let e ← TimeUnit.ticks.addLocalTimeWithExtraDays d.1 p.ticks
+  let f ← TimeUnit.nanoseconds.addLocalTimeWithExtraDays e.1 p.nanoseconds
+  .ok (f.1, a.2 + b.2 + c.2 + d.2 + e.2 + f.2)
+
+/-- `LocalDateTime.plus(period)`; `dayAfterYM` = day number of
+    `self.date.plus_years(period.years).plus_months(period.months)`.
+    `minus(period)` is the same computation on the negated components
+    (`extra_days - other.days` = `(-other.days) + extra_days`). -/
+def plusPeriod (r : DayRange) (l : LocalDateTime) (dayAfterYM : Int) (p : TimePeriod) : R LocalDateTime := do
+  let te ← timeSteps l.time p
+  let d1 ← r.plusWeeks dayAfterYM p.weeks
+  let d2 ← r.plusDays d1 (p.days + te.2)
+  .ok ⟨d2, te.1⟩
+
+end LocalDateTime
+
+/-! ## line protocol -/
+
+namespace TimeOfDay
+
+def showI (r : R Int) : String := showR toString r
+def showT (r : R LocalTime) : String := showR (fun t => toString t.nod) r
+/-- Date-range failures are printed as `!range` whatever their kind: the code raises OverflowError or
+    ValueError depending on the path taken inside the calendar (the Badíʿ calendar raises ValueError where
+    the others raise OverflowError); the property only asks for an error. -/
+def showLdt : R LocalDateTime → String
+  | .ok l => toString l.day ++ " " ++ toString l.time.nod
+  | .error .valueError => "!range"
+  | .error .overflowError => "!range"
+  | .error e => "!" ++ e.name
+
+def unit? : String → Option TimeUnit
+  | "hours" => some .hours | "minutes" => some .minutes | "seconds" => some .seconds
+  | "milliseconds" => some .milliseconds | "microseconds" => some .microseconds
+  | "ticks" => some .ticks | "nanoseconds" => some .nanoseconds | _ => none
+
+def accLine (t : LocalTime) : String :=
+  " ".intercalate [showI t.hour, showI t.clockHourOfHalfDay, showI t.minute, showI t.second,
+    showI t.millisecond, showI t.microsecond, showI t.tickOfSecond, showI t.tickOfDay,
+    toString t.nanosecondOfSecond, toString t.nanosecondOfDay]
+
+def handle (toks : List String) : Option String :=
+  match toks with
+  | ["tod.new", h, m, s, ms] => do
+      match ← parseInts? [h, m, s, ms] with
+      | [h, m, s, ms] => some (showT (LocalTime.new h m s ms)) | _ => none
+  | ["tod.hmsmt", h, m, s, ms, t] => do
+      match ← parseInts? [h, m, s, ms, t] with
+      | [h, m, s, ms, t] => some (showT (LocalTime.fromHMSMsT h m s ms t)) | _ => none
+  | ["tod.hmst", h, m, s, t] => do
+      match ← parseInts? [h, m, s, t] with
+      | [h, m, s, t] => some (showT (LocalTime.fromHMST h m s t)) | _ => none
+  | ["tod.hmsn", h, m, s, n] => do
+      match ← parseInts? [h, m, s, n] with
+      | [h, m, s, n] => some (showT (LocalTime.fromHMSN h m s n)) | _ => none
+  | ["tod.since", u, n] => do
+      let n ← parseInt? n
+      match u with
+      | "hours" => some (showT (LocalTime.fromHoursSinceMidnight n))
+      | "minutes" => some (showT (LocalTime.fromMinutesSinceMidnight n))
+      | "seconds" => some (showT (LocalTime.fromSecondsSinceMidnight n))
+      | "milliseconds" => some (showT (LocalTime.fromMillisecondsSinceMidnight n))
+      | "ticks" => some (showT (LocalTime.fromTicksSinceMidnight n))
+      | "nanoseconds" => some (showT (LocalTime.fromNanosSinceMidnight n))
+      | _ => none
+  | ["tod.acc", n] => do let n ← parseInt? n; some (accLine ⟨n⟩)
+  | ["tod.cmp", a, b] => do
+      let a ← parseInt? a; let b ← parseInt? b
+      let x : LocalTime := ⟨a⟩; let y : LocalTime := ⟨b⟩
+      let s := LocalTime.compareTo x y
+      some (" ".intercalate [showBool (x.beq y), showBool (x.lt y), showBool (x.le y), showBool (x.gt y),
+        showBool (x.ge y), toString (if s < 0 then (-1 : Int) else if s > 0 then 1 else 0)])
+  | ["tod.plus", u, n, k] => do
+      let u ← unit? u; let n ← parseInt? n; let k ← parseInt? k
+      some (toString (u.addLocalTime ⟨n⟩ k).nod)
+  | ["tod.plusperiod", sg, n, h, mi, s, ms, t, ns] => do
+      match ← parseInts? [sg, n, h, mi, s, ms, t, ns] with
+      | [sg, n, h, mi, s, ms, t, ns] =>
+        let p : TimePeriod := ⟨0, 0, h, mi, s, ms, t, ns⟩
+        if sg = 1 then some (toString (LocalTime.plusPeriod ⟨n⟩ p).nod)
+        else if sg = -1 then some (toString (LocalTime.plusPeriod ⟨n⟩ p.neg).nod)
+        else none
+      | _ => none
+  | ["tod.adddays", u, n, k] => do
+      let u ← unit? u; let n ← parseInt? n; let k ← parseInt? k
+      some (showR (fun (r : LocalTime × Int) => toString r.1.nod ++ " " ++ toString r.2)
+        (u.addLocalTimeWithExtraDays ⟨n⟩ k))
+  | ["ldt.plus", _cal, u, lo, hi, d, n, k] => do
+      let u ← unit? u
+      match ← parseInts? [lo, hi, d, n, k] with
+      | [lo, hi, d, n, k] => some (showLdt (u.addLocalDateTime ⟨lo, hi⟩ ⟨d, ⟨n⟩⟩ k))
+      | _ => none
+  | ["ldt.plusperiod", _cal, sg, lo, hi, d, n, _y, _m, d1, w, dd, h, mi, s, ms, t, ns] => do
+      match ← parseInts? [sg, lo, hi, d, n, d1, w, dd, h, mi, s, ms, t, ns] with
+      | [sg, lo, hi, d, n, d1, w, dd, h, mi, s, ms, t, ns] =>
+        let p : TimePeriod := ⟨w, dd, h, mi, s, ms, t, ns⟩
+        if sg = 1 then some (showLdt (LocalDateTime.plusPeriod ⟨lo, hi⟩ ⟨d, ⟨n⟩⟩ d1 p))
+        else if sg = -1 then some (showLdt (LocalDateTime.plusPeriod ⟨lo, hi⟩ ⟨d, ⟨n⟩⟩ d1 p.neg))
+        else none
+      | _ => none
+  | ["ldt.between", _cal, u, d1, n1, d2, n2] => do
+      let u ← unit? u
+      match ← parseInts? [d1, n1, d2, n2] with
+      | [d1, n1, d2, n2] => some (showI (u.unitsBetween ⟨d1, ⟨n1⟩⟩ ⟨d2, ⟨n2⟩⟩))
+      | _ => none
+  | _ => none
+
+end TimeOfDay
+end Pyoda
